@@ -116,3 +116,63 @@ Proof.
   specialize (H p1 f p2 sd eq_refl eq_refl).
   destruct (verify_commit (s_vals s) (sb_id f) (s_height s) (sb_last sd)) as [[]|e|w]; [contradiction| |]; auto.
 Qed.
+
+(* ---------- the check and the pop as separate steps ---------- *)
+Definition inv2 (t : sync2) : Prop :=
+  inv (s2_s t) /\
+  match s2_checked t with
+  | None => True
+  | Some first => sb_height first = s_height (s2_s t) /\
+                  exists c, verify_commit (s_vals (s2_s t)) (sb_id first) (s_height (s2_s t)) c = Ok tt
+  end.
+
+Lemma resp_keeps s e : (match e with ETick => False | _ => True end) ->
+  s_height (sync_step s e) = s_height s /\ s_store (sync_step s e) = s_store s.
+Proof.
+  destruct e as [peer b|peer|]; cbn [sync_step]; intro H; [|auto|contradiction].
+  destruct (sb_height b <? s_height s); [auto|]. destruct (pool_get _ _); auto.
+Qed.
+
+Lemma step2_inv t e : inv2 t -> inv2 (sync2_step t e) /\ s_vals (s2_s (sync2_step t e)) = s_vals (s2_s t).
+Proof.
+  intros [Hi Hc]. destruct e as [peer b|peer| |]; cbn [sync2_step s2_s s2_checked].
+  - destruct (step_inv _ (EResp peer b) Hi) as [Hi' Ev]. destruct (resp_keeps (s2_s t) (EResp peer b) I) as [Eh _].
+    split; [split; [exact Hi'|]|exact Ev]. destruct (s2_checked t); [|exact I]. cbn [s2_s s2_checked]. rewrite Eh, Ev. exact Hc.
+  - destruct (step_inv _ (ERemove peer) Hi) as [Hi' Ev]. destruct (resp_keeps (s2_s t) (ERemove peer) I) as [Eh _].
+    split; [split; [exact Hi'|]|exact Ev]. destruct (s2_checked t); [|exact I]. cbn [s2_s s2_checked]. rewrite Eh, Ev. exact Hc.
+  - destruct (s2_checked t) eqn:Ec; [split; [split; [exact Hi|rewrite Ec; exact Hc]|reflexivity]|].
+    destruct (pool_get (s_pool (s2_s t)) (s_height (s2_s t))) as [[p1 first]|] eqn:G1; [|split; [split; [exact Hi|rewrite Ec; exact I]|reflexivity]].
+    destruct (pool_get (s_pool (s2_s t)) (s_height (s2_s t) + 1)) as [[p2 second]|] eqn:G2; [|split; [split; [exact Hi|rewrite Ec; exact I]|reflexivity]].
+    destruct Hi as [Hp Hs].
+    destruct (verify_commit (s_vals (s2_s t)) (sb_id first) (s_height (s2_s t)) (sb_last second)) as [[]|e|w] eqn:V; cbn [s2_s s2_checked].
+    + split; [split; [split; assumption|]|reflexivity]. split; [|exists (sb_last second); exact V].
+      apply pool_get_in in G1. apply Hp in G1. exact G1.
+    + split; [split; [split; cbn; [now apply pool_ok_filter, pool_ok_filter|exact Hs]|exact I]|reflexivity].
+    + split; [split; [split; cbn; [now apply pool_ok_filter, pool_ok_filter|exact Hs]|exact I]|reflexivity].
+  - destruct (s2_checked t) as [first|] eqn:Ec; [|split; [split; [exact Hi|rewrite Ec; exact I]|reflexivity]].
+    destruct Hi as [Hp Hs]. destruct Hc as [Hh Hv]. cbn [s2_s s2_checked].
+    split; [split; [split; cbn|exact I]|reflexivity].
+    + now apply pool_ok_filter.
+    + replace (s_height (s2_s t) + 1 - 1) with (s_height (s2_s t)) by lia. repeat split; assumption.
+Qed.
+
+Lemma run2_inv es : forall t, inv2 t -> inv2 (sync2_run t es) /\ s_vals (s2_s (sync2_run t es)) = s_vals (s2_s t).
+Proof.
+  induction es as [|e r IH]; intros t H; cbn [sync2_run fold_left]; [auto|].
+  destruct (step2_inv t e H) as [H1 E1]. destruct (IH _ H1) as [H2 E2]. unfold sync2_run in *.
+  split; [exact H2|congruence].
+Qed.
+
+(* every interleaving of responses, removals, checks and pops applies justified blocks only *)
+Theorem sync2_sound vals es :
+  let s := s2_s (sync2_run (sync2_0 vals) es) in
+  store_ok vals (s_store s) (s_height s).
+Proof.
+  cbv zeta. assert (H : inv2 (sync2_0 vals)) by (split; [split; [intros k x []|reflexivity]|exact I]).
+  destruct (run2_inv es _ H) as [[[_ Hs] _] Ev]. cbn in Ev. rewrite Ev in Hs. exact Hs.
+Qed.
+
+(* the label a commit carries for itself plays no part in its verification: only the precommits do *)
+Theorem commit_label_irrelevant vals b h l1 l2 pre :
+  verify_commit vals b h (mkCommit l1 pre) = verify_commit vals b h (mkCommit l2 pre).
+Proof. reflexivity. Qed.
